@@ -45,6 +45,9 @@ BIN = ["+", "-", "*", "/", "%", "&", "|", "^", "<<", ">>", "<", "<=", ">", ">=",
 
 
 # ties between the function bodies translated from the Rust source on every run (Gen/Fns.lean) and the hand-written models
+THEOREM_MODULES.append("Yarel.Props.FnsTie.VmSteps")
+REQUIRED_THEOREMS += ["vm_binary_op_numbers", "vm_binary_op_type_error", "vm_equal_effect", "vm_logical_not_effect", "vm_negate_number",
+                      "vm_bitwise_not_number", "vm_negate_type_error", "vm_jump_if_false_effect"]
 THEOREM_MODULES.append("Yarel.Props.FnsTie.Ops")
 REQUIRED_THEOREMS += ["op_greater_tie", "op_less_tie", "op_subtract_tie", "op_multiply_tie", "op_divide_tie", "op_modulo_tie", "op_bitwise_and_tie",
                       "op_bitwise_or_tie", "op_bitwise_xor_tie", "op_shift_left_tie", "op_shift_right_tie", "dispatch_covers_every_opcode",
